@@ -4,7 +4,9 @@
 shape matchers of translator/c13.py read the same table from every member of a class of equivalent spellings:
 
   (a) calls to private helpers (`self._name(...)` defined in the class / its listed bases, `_name(...)` defined at module
-      level) are inlined: as a statement, as the value of an assignment / return, or -- single-`return <expr>` helpers --
+      level or imported by name from another module of the same code base -- then read in that module's vocabulary:
+      its constants, its private helpers, and only if every imported name it uses is imported identically here; positional,
+      keyword and keyword-only parameters, defaults) are inlined: as a statement, as the value of an assignment / return, or -- single-`return <expr>` helpers --
       inside an expression;
   (b) local aliases `x = <cheap pure expression>` (names, attribute chains, constants, tuples, isinstance / is / == / in
       tests of those) are substituted into their uses along every path; an alias that is USED after a statement that
@@ -15,12 +17,14 @@ shape matchers of translator/c13.py read the same table from every member of a c
       `not in` tests are turned positive with swapped branches; `else` after a terminating branch disappears;
   (d) `a is b is None` == `a is None and b is None`; `a <= x <= b` == `a <= x and x <= b` (x a cheap pure expression);
       `not (x is not y)` == `x is y`; De Morgan on tests whose operands are ALL negated (short-circuit order is the same);
-  (e) `match` on literals / class patterns == if/elif on `==` / isinstance;
+  (e) `match` on literals / class patterns == if/elif on `==` / isinstance; a capture (`case x:`, `case Cls() as x:`) is a
+      local alias of the subject, treated like any other alias (b);
   (g) names bound once at module level to a literal (constant / tuple of constants) are replaced by the literal;
   (h) docstrings, annotations, `pass`, function-level imports, logging calls, the arguments of `raise X(...)` and of
       `warnings.warn(...)` are dropped; locals assigned just before a `raise` (message building) are dropped; remaining
       locals are renamed _v1, _v2, ... in order of appearance;
-  (i) `x = a if c else b` / `return a if c else b` == if/else.
+  (i) `x = a if c else b` / `return a if c else b` == if/else; `if (x := E) ...:` == `x = E; if x ...:` when the walrus is
+      the first thing the test evaluates.
 
 Loops, try, with are kept as opaque statements (a `return` inside one fails closed).  Nothing here looks at message text.
 """
@@ -341,18 +345,110 @@ def comp_names(node) -> set:
 
 
 class Ctx:
-    def __init__(self, module, scopes, keep, ret, depth=0, stack=()):
+    """`module`: the module whose names the statements being expanded see (changes while the body of a helper that lives
+    in another module is expanded); `top`: the module of the function being normalised; `loader`: dotted module name ->
+    ast.Module | None (with `_modname` / `_is_pkg` set), used to follow `from package.module import _helper`."""
+
+    def __init__(self, module, scopes, keep, ret, depth=0, stack=(), loader=None, top=None):
         self.module, self.scopes, self.keep = module, scopes, keep
         self.ret, self.depth, self.stack = ret, depth, stack
+        self.loader, self.top = loader, (top if top is not None else module)
         self.counter = [0]
         self.inlined = set()
 
-    def child(self, ret, name):
-        c = Ctx(self.module, self.scopes, self.keep, ret, self.depth + 1, self.stack + (name,))
+    def child(self, ret, name, module=None):
+        c = Ctx(module if module is not None else self.module, self.scopes, self.keep, ret, self.depth + 1,
+                self.stack + (name,), self.loader, self.top)
         c.counter = self.counter
         c.inlined = self.inlined
         c.inlined.add(name)
         return c
+
+
+def import_bindings(module: ast.Module) -> dict:
+    """local name -> set of (module, attribute | None, level) it is bound to by an import anywhere in the module"""
+    cached = getattr(module, "_import_bindings", None)
+    if cached is not None:
+        return cached
+    out: dict = {}
+    for n in ast.walk(module):
+        if isinstance(n, ast.Import):
+            for a in n.names:
+                if a.asname:
+                    out.setdefault(a.asname, set()).add((a.name, None, 0))
+                else:
+                    out.setdefault(a.name.split(".")[0], set()).add((a.name.split(".")[0], None, 0))
+        elif isinstance(n, ast.ImportFrom):
+            for a in n.names:
+                out.setdefault(a.asname or a.name, set()).add((n.module or "", a.name, n.level))
+    module._import_bindings = out
+    return out
+
+
+def module_level_names(module: ast.Module) -> set:
+    out = set()
+    for st in module.body:
+        if isinstance(st, (ast.FunctionDef, ast.ClassDef, ast.AsyncFunctionDef)):
+            out.add(st.name)
+        else:
+            out |= stored_names(st)
+    return out
+
+
+def resolve_import(module: ast.Module, nm: str, loader, hops=2):
+    """A private function imported by name from a module of the same code base -> (FunctionDef, its module) | None"""
+    if loader is None:
+        return None
+    targets = import_bindings(module).get(nm)
+    if not targets or len(targets) != 1 or nm in module_level_names(module):
+        return None
+    mod, attr, level = next(iter(targets))
+    if attr is None:
+        return None
+    if level:
+        here = getattr(module, "_modname", None)
+        if here is None:
+            return None
+        parts = here.split(".")
+        if not getattr(module, "_is_pkg", False):
+            parts = parts[:-1]
+        if level - 1 > len(parts):
+            return None
+        parts = parts[:len(parts) - (level - 1)]
+        mod = ".".join(parts + ([mod] if mod else []))
+    other = loader(mod)
+    if other is None:
+        return None
+    c = [n for n in other.body if isinstance(n, ast.FunctionDef) and n.name == attr]
+    if len(c) == 1 and attr not in {x for st in other.body if not isinstance(st, (ast.FunctionDef, ast.ClassDef))
+                                    for x in stored_names(st)}:
+        return c[0], other
+    if not c and hops > 0:
+        return resolve_import(other, attr, loader, hops - 1)     # re-exported (`from .array import _helper`)
+    return None
+
+
+def same_globals(helper: ast.FunctionDef, home: ast.Module, top: ast.Module) -> bool:
+    """The body of a helper that lives in another module is read in the vocabulary of the function it is inlined into:
+    every name it takes from an import of its own module must be imported in exactly the same way there, and a name it
+    takes from a definition of its own module must not mean something else there.  (Private functions are followed in
+    the helper's own module, literal constants are substituted from there.)"""
+    if home is top:
+        return True
+    hb, tb = import_bindings(home), import_bindings(top)
+    local = stored_names(helper) | {x.arg for x in helper.args.args + helper.args.kwonlyargs}
+    defined, consts = module_level_names(home), module_constants(home)
+    for nm in names_in(helper) - local:
+        if nm.startswith("_") and not nm.startswith("__") and (nm in hb or nm in defined):
+            continue
+        if nm in consts:
+            continue
+        if nm in hb:
+            if len(hb[nm]) != 1 or tb.get(nm) != hb[nm]:
+                return False
+        elif nm in defined and (nm in tb or nm in module_level_names(top)):
+            return False
+    return True
 
 
 def plain_decorators(fn) -> bool:
@@ -360,20 +456,42 @@ def plain_decorators(fn) -> bool:
     return all(dotted(d) in ("override", "typing.override", "typing_extensions.override") for d in fn.decorator_list)
 
 
-def is_message_only(fn: ast.FunctionDef) -> bool:
-    """a helper that only builds and returns text (its result can only end up in a message)"""
+def is_message_only(fn: ast.FunctionDef, module: ast.Module | None = None, scopes=(), loader=None, _ctx=None) -> bool:
+    """a helper that only builds and returns text (its result can only end up in a message): constants, f-strings over
+    effect-free expressions, cheap expressions, and calls to private helpers of the code base that are message-only
+    themselves (followed like any other private helper: same class, same module, `from package.module import _helper`)"""
+    ctx = _ctx
+    if ctx is None and module is not None:
+        ctx = Ctx(module, list(scopes), set(), None, loader=loader)
+
+    def text(v) -> bool:
+        if isinstance(v, ast.Constant) or (is_cheap(v) and not may_raise(v, set())):
+            return True
+        if isinstance(v, ast.JoinedStr):
+            return not expr_writes(v)
+        if isinstance(v, ast.BinOp) and isinstance(v.op, (ast.Add, ast.Mod)):
+            return text(v.left) and text(v.right)           # concatenation / %-formatting of text
+        if isinstance(v, ast.Call) and ctx is not None and ctx.depth < MAX_DEPTH:
+            h = find_helper(v, ctx)
+            if h is None or any(isinstance(x, ast.Starred) for x in v.args) or any(k.arg is None for k in v.keywords):
+                return False
+            if not all(text(x) for x in list(v.args) + [k.value for k in v.keywords]):
+                return False
+            return is_message_only(h[0], _ctx=ctx.child(None, h[0].name, home_of(h[0], ctx)))
+        return False
+
     for st in clean(fn.body):
-        if isinstance(st, ast.Assign) and all(isinstance(t, ast.Name) for t in st.targets) and \
-                (isinstance(st.value, (ast.Constant, ast.JoinedStr)) or is_cheap(st.value)):
+        if isinstance(st, ast.Assign) and all(isinstance(t, ast.Name) for t in st.targets) and text(st.value):
             continue
-        if isinstance(st, ast.Return) and isinstance(st.value, (ast.Constant, ast.JoinedStr, ast.Name)):
+        if isinstance(st, ast.Return) and (st.value is None or text(st.value)):
             continue
         return False
     return True
 
 
 def find_helper(call: ast.Call, ctx: Ctx):
-    """-> (FunctionDef, is_method) for a call to a private helper of the same class / module, else None"""
+    """-> (FunctionDef, is_method) for a call to a private helper of the same class / module / code base, else None.
+    The module the helper's body must be read in is left in `FunctionDef._home`."""
     f = call.func
     if isinstance(f, ast.Attribute) and isinstance(f.value, ast.Name) and f.value.id == "self":
         nm = f.attr
@@ -381,9 +499,14 @@ def find_helper(call: ast.Call, ctx: Ctx):
             return None
         for cls in ctx.scopes:
             c = [n for n in cls.body if isinstance(n, ast.FunctionDef) and n.name == nm]
+            home = getattr(cls, "_home", None)
+            if len(c) == 1 and home is not None and not same_globals(c[0], home, ctx.top):
+                return None
             if len(c) == 1 and plain_decorators(c[0]):
+                c[0]._home = home
                 return c[0], True
             if len(c) == 1 and [dotted(d) for d in c[0].decorator_list] == ["staticmethod"]:
+                c[0]._home = home
                 return c[0], False
             if c:
                 return None
@@ -394,15 +517,25 @@ def find_helper(call: ast.Call, ctx: Ctx):
             return None
         c = [n for n in ctx.module.body if isinstance(n, ast.FunctionDef) and n.name == nm]
         if len(c) == 1 and plain_decorators(c[0]):
-            return c[0], False
+            c[0]._home = ctx.module
+            return (c[0], False) if same_globals(c[0], ctx.module, ctx.top) else None
+        if not c:
+            r = resolve_import(ctx.module, nm, ctx.loader)
+            if r is not None and plain_decorators(r[0]) and same_globals(r[0], r[1], ctx.top):
+                r[0]._home = r[1]
+                return r[0], False
     return None
+
+
+def home_of(helper, ctx: Ctx):
+    return getattr(helper, "_home", None) or ctx.module
 
 
 def bind_helper(call: ast.Call, helper: ast.FunctionDef, is_method: bool, ctx: Ctx):
     """The helper's cleaned body with its parameters bound to the call's arguments and its locals renamed apart.
     -> list of statements, or None when the call cannot be matched to the signature (left alone: fails closed later)."""
     a = helper.args
-    if a.vararg or a.kwarg or a.kwonlyargs or a.posonlyargs:
+    if a.vararg or a.kwarg or a.posonlyargs:
         return None
     params = [x.arg for x in a.args]
     if is_method:
@@ -413,11 +546,16 @@ def bind_helper(call: ast.Call, helper: ast.FunctionDef, is_method: bool, ctx: C
     if len(call.args) > len(params) or any(isinstance(x, ast.Starred) for x in call.args):
         return None
     given = dict(zip(params, call.args))
+    kwonly = [x.arg for x in a.kwonlyargs]              # `def f(x, *, name)`: bound by keyword only
     for kw in call.keywords:
-        if kw.arg is None or kw.arg not in params or kw.arg in given:
+        if kw.arg is None or kw.arg not in params + kwonly or kw.arg in given:
             return None
         given[kw.arg] = kw.value
     defaults = dict(zip(params[len(params) - len(a.defaults):], a.defaults)) if a.defaults else {}
+    defaults.update({x.arg: d for x, d in zip(a.kwonlyargs, a.kw_defaults) if d is not None})
+    # binding order = evaluation order at the call: positional arguments, then keywords in the order written
+    order = {id(v): i for i, v in enumerate(list(call.args) + [k.value for k in call.keywords])}
+    params = sorted(params + kwonly, key=lambda p: order.get(id(given.get(p)), len(order)))
     for p in params:
         if p not in given:
             if p not in defaults:
@@ -429,6 +567,10 @@ def bind_helper(call: ast.Call, helper: ast.FunctionDef, is_method: bool, ctx: C
     stored = set()
     for st in body:
         stored |= stored_names(st)
+    consts = {k: v for k, v in module_constants(home_of(helper, ctx)).items()
+              if k not in stored and k not in params + kwonly and not (is_method and k == self_name)}
+    if consts:
+        body = [_Rename({}, consts).visit(copy.deepcopy(st)) for st in body]
     names = {n: tag + n for n in stored}
     exprs, pre = {}, []
     if is_method and self_name != "self":
@@ -455,7 +597,11 @@ def expr_helper_value(call: ast.Call, ctx: Ctx):
     if len(body) != 1 or not isinstance(body[0], ast.Return) or body[0].value is None:
         return None
     a = h[0].args
-    if a.vararg or a.kwarg or a.kwonlyargs or a.posonlyargs:
+    consts = {k: v for k, v in module_constants(home_of(h[0], ctx)).items()
+              if k not in {x.arg for x in a.args + a.kwonlyargs}}
+    if consts:
+        body = [_Rename({}, consts).visit(copy.deepcopy(body[0]))]
+    if a.vararg or a.kwarg or a.posonlyargs:
         return None
     params = [x.arg for x in a.args]
     exprs = {}
@@ -464,16 +610,24 @@ def expr_helper_value(call: ast.Call, ctx: Ctx):
             return None
         exprs[params[0]] = ast.Name(id="self", ctx=ast.Load())
         params = params[1:]
-    if len(call.args) != len(params) or call.keywords:
+    if len(call.args) > len(params) or any(isinstance(x, ast.Starred) for x in call.args):
         return None
-    exprs.update(zip(params, call.args))
+    given = dict(zip(params, call.args))
+    params = params + [x.arg for x in a.kwonlyargs]
+    for kw in call.keywords:
+        if kw.arg is None or kw.arg not in params or kw.arg in given:
+            return None
+        given[kw.arg] = kw.value
+    if set(given) != set(params):
+        return None                                   # defaults are not followed in expression position
+    exprs.update(given)
     if comp_names(body[0].value) & set(exprs):
         return None
     sure = uncond_loads(body[0].value)
-    if any(may_raise(arg, {"np", "xr"}) and p not in sure for p, arg in zip(params, call.args)):
+    if any(may_raise(arg, {"np", "xr"}) and p not in sure for p, arg in given.items()):
         return None                                   # the argument's evaluation would become conditional
     val = _Rename({}, exprs).visit(copy.deepcopy(body[0].value))
-    return inline_exprs(val, ctx.child(ctx.ret, h[0].name))
+    return inline_exprs(val, ctx.child(ctx.ret, h[0].name, home_of(h[0], ctx)))
 
 
 class _InlineExpr(ast.NodeTransformer):
@@ -499,21 +653,52 @@ def has_escape(st) -> bool:
 
 
 def match_test(subject, pat):
-    """A `case` pattern over a cheap subject -> test expression (None = irrefutable)"""
+    """A `case` pattern over a cheap subject -> (test expression (None = irrefutable), [names bound to the subject])
+    A capture (`case x:`, `case Cls() as x:`) binds the subject itself, i.e. it is a local alias of the subject."""
     if isinstance(pat, ast.MatchValue):
-        return ast.Compare(left=copy.deepcopy(subject), ops=[ast.Eq()], comparators=[pat.value])
+        return ast.Compare(left=copy.deepcopy(subject), ops=[ast.Eq()], comparators=[pat.value]), []
     if isinstance(pat, ast.MatchSingleton):
-        return ast.Compare(left=copy.deepcopy(subject), ops=[ast.Is()], comparators=[ast.Constant(value=pat.value)])
-    if isinstance(pat, ast.MatchAs) and pat.pattern is None and pat.name is None:
-        return None
+        return ast.Compare(left=copy.deepcopy(subject), ops=[ast.Is()], comparators=[ast.Constant(value=pat.value)]), []
+    if isinstance(pat, ast.MatchAs):
+        if pat.pattern is None:
+            return None, ([pat.name] if pat.name is not None else [])
+        t, binds = match_test(subject, pat.pattern)
+        return t, binds + [pat.name]
     if isinstance(pat, ast.MatchClass) and not pat.patterns and not pat.kwd_patterns:
-        return ast.Call(func=ast.Name(id="isinstance", ctx=ast.Load()), args=[copy.deepcopy(subject), pat.cls], keywords=[])
+        return ast.Call(func=ast.Name(id="isinstance", ctx=ast.Load()), args=[copy.deepcopy(subject), pat.cls],
+                        keywords=[]), []
     if isinstance(pat, ast.MatchOr):
         ts = [match_test(subject, p) for p in pat.patterns]
-        if any(t is None for t in ts):
-            return None
-        return ast.BoolOp(op=ast.Or(), values=ts)
+        if any(b for _, b in ts):
+            fail(pat, "captures inside an or-pattern are not accepted")
+        if any(t is None for t, _ in ts):
+            return None, []
+        return ast.BoolOp(op=ast.Or(), values=[t for t, _ in ts]), []
     fail(pat, "match pattern not accepted")
+
+
+def hoist_walrus(test):
+    """`if (x := E) is None:` == `x = E; if x is None:` -- only for the operand that is evaluated FIRST and unconditionally
+    (left-most through `not`, the first operand of `and` / `or`, the left side of a comparison, the first argument of
+    isinstance / type / len).  -> (assignment | None, test)"""
+    def go(n):
+        if isinstance(n, ast.NamedExpr) and isinstance(n.target, ast.Name):
+            return (ast.Assign(targets=[ast.Name(id=n.target.id, ctx=ast.Store())], value=n.value),
+                    ast.Name(id=n.target.id, ctx=ast.Load()))
+        if isinstance(n, ast.UnaryOp) and isinstance(n.op, ast.Not):
+            a, o = go(n.operand)
+            return a, (n if a is None else ast.UnaryOp(op=n.op, operand=o))
+        if isinstance(n, ast.BoolOp):
+            a, o = go(n.values[0])
+            return a, (n if a is None else ast.BoolOp(op=n.op, values=[o] + n.values[1:]))
+        if isinstance(n, ast.Compare):
+            a, o = go(n.left)
+            return a, (n if a is None else ast.Compare(left=o, ops=n.ops, comparators=n.comparators))
+        if isinstance(n, ast.Call) and dotted(n.func) in ("isinstance", "type", "len") and n.args and not n.keywords:
+            a, o = go(n.args[0])
+            return a, (n if a is None else ast.Call(func=n.func, args=[o] + n.args[1:], keywords=[]))
+        return None, n
+    return go(test)
 
 
 def build(stmts: list, k: Blk, ctx: Ctx) -> Blk:
@@ -529,7 +714,7 @@ def build(stmts: list, k: Blk, ctx: Ctx) -> Blk:
             h = find_helper(st.value, ctx)
             hb = h and bind_helper(st.value, h[0], h[1], ctx)
             if hb is not None:
-                sub = ctx.child(ctx.ret, h[0].name)
+                sub = ctx.child(ctx.ret, h[0].name, home_of(h[0], ctx))
                 return build(hb, ctx.ret(None), sub)
         v = None if st.value is None else inline_exprs(copy.deepcopy(st.value), ctx)
         if isinstance(v, ast.Constant) and v.value is None:
@@ -538,6 +723,9 @@ def build(stmts: list, k: Blk, ctx: Ctx) -> Blk:
     if isinstance(st, ast.Raise):
         return Blk([], ("raise", st))
     if isinstance(st, ast.If):
+        pre, test = hoist_walrus(st.test)
+        if pre is not None:
+            return build([pre, ast.If(test=test, body=st.body, orelse=st.orelse)] + rest, k, ctx)
         kk = build(rest, k, ctx)
         test = inline_exprs(copy.deepcopy(st.test), ctx)
         return Blk([], ("if", test, build(st.body, kk, ctx), build(st.orelse, kk, ctx)))
@@ -550,8 +738,10 @@ def build(stmts: list, k: Blk, ctx: Ctx) -> Blk:
         for case in reversed(st.cases):
             if case.guard is not None:
                 fail(st, "match guards are not accepted")
-            t = match_test(subj, case.pattern)
-            node = build(case.body, kk, ctx) if t is None else Blk([], ("if", t, build(case.body, kk, ctx), node))
+            t, binds = match_test(subj, case.pattern)
+            cbody = [ast.Assign(targets=[ast.Name(id=nm, ctx=ast.Store())], value=copy.deepcopy(subj))
+                     for nm in binds] + list(case.body)
+            node = build(cbody, kk, ctx) if t is None else Blk([], ("if", t, build(cbody, kk, ctx), node))
         return node
     if isinstance(st, (ast.For, ast.While, ast.Try, ast.With, ast.AsyncFor, ast.AsyncWith, ast.FunctionDef, ast.ClassDef)):
         if has_escape(st):
@@ -573,7 +763,7 @@ def build(stmts: list, k: Blk, ctx: Ctx) -> Blk:
                     if v is not None and expr_writes(v):
                         fail(st, "helper called as a statement returns the value of a call")
                     return kk
-                return build(hb, kk, ctx.child(ret, h[0].name))
+                return build(hb, kk, ctx.child(ret, h[0].name, home_of(h[0], ctx)))
         if (isinstance(st, ast.Assign) and len(st.targets) == 1 and isinstance(st.targets[0], ast.Name)
                 and isinstance(st.value, ast.Call)):
             h = find_helper(st.value, ctx)
@@ -585,7 +775,7 @@ def build(stmts: list, k: Blk, ctx: Ctx) -> Blk:
                 def ret(v, kk=kk, tgt=tgt):
                     return prepend(ast.Assign(targets=[ast.Name(id=tgt, ctx=ast.Store())],
                                               value=v if v is not None else ast.Constant(value=None)), kk)
-                return build(hb, ret(None), ctx.child(ret, h[0].name))
+                return build(hb, ret(None), ctx.child(ret, h[0].name, home_of(h[0], ctx)))
     return prepend(inline_exprs(copy.deepcopy(st), ctx), build(rest, k, ctx))
 
 
@@ -917,6 +1107,14 @@ def _first_pos(text: str, nm: str) -> int:
 
 def module_constants(module: ast.Module) -> dict:
     """NAME = <literal> bound exactly once at module level"""
+    cached = getattr(module, "_module_constants", None)
+    if cached is not None:
+        return cached
+    module._module_constants = _module_constants(module)
+    return module._module_constants
+
+
+def _module_constants(module: ast.Module) -> dict:
     count, val = {}, {}
     for st in module.body:
         tgt = None
@@ -955,9 +1153,11 @@ def imported_names(*trees) -> set:
     return out
 
 
-def normalize(fn: ast.FunctionDef, module: ast.Module, scopes=(), keep=(), params=None) -> ast.FunctionDef:
+def normalize(fn: ast.FunctionDef, module: ast.Module, scopes=(), keep=(), params=None, loader=None) -> ast.FunctionDef:
     """The canonical form of `fn` (see the module docstring).  `scopes`: ClassDefs searched for `self._helper` methods;
-    `keep`: helper names NOT to inline; `params`: canonical names of the positional parameters (protocol methods)."""
+    `keep`: helper names NOT to inline; `params`: canonical names of the positional parameters (protocol methods);
+    `loader`: dotted module name -> ast.Module | None, to follow private helpers imported from the same code base (a scope
+    class may carry `_home`, the module it was read from, when that is not `module`)."""
     a = fn.args
     if a.vararg or a.kwarg or a.posonlyargs:
         fail(fn, f"{fn.name}: *args / **kwargs / positional-only parameters are not accepted")
@@ -979,7 +1179,7 @@ def normalize(fn: ast.FunctionDef, module: ast.Module, scopes=(), keep=(), param
     consts = {k: v for k, v in module_constants(module).items() if k not in locals_ and k not in pset}
     if consts:
         body = [_Rename({}, consts).visit(st) for st in body]
-    ctx = Ctx(module, list(scopes), set(keep), lambda v: Blk([], ("ret", v)))
+    ctx = Ctx(module, list(scopes), set(keep), lambda v: Blk([], ("ret", v)), loader=loader)
     tree = build(body, Blk([], ("ret", None)), ctx)
     stable = imported_names(module, fn) | {"np", "xr", "warnings"}
     tree = subst_tree(tree, {}, set(), stable, pset)
@@ -1006,6 +1206,33 @@ def normalize(fn: ast.FunctionDef, module: ast.Module, scopes=(), keep=(), param
     if len(out.body) == 1 and isinstance(out.body[0], ast.Pass):
         out.body = []
     return out
+
+
+def make_loader(repo):
+    """dotted module name -> parsed module of the code base under `repo` (None when it is not there), cached;
+    the tree carries `_modname` and `_is_pkg` so that relative imports can be followed from it"""
+    from pathlib import Path
+
+    cache: dict = {}
+
+    def load(name: str):
+        if name in cache:
+            return cache[name]
+        tree = None
+        if name and all(p.isidentifier() for p in name.split(".")):
+            base = Path(repo).joinpath(*name.split("."))
+            for path, pkg in ((base.with_suffix(".py"), False), (base / "__init__.py", True)):
+                if path.is_file():
+                    try:
+                        tree = ast.parse(path.read_text(), filename=str(path))
+                        tree._modname, tree._is_pkg = name, pkg
+                    except SyntaxError:
+                        tree = None
+                    break
+        cache[name] = tree
+        return tree
+
+    return load
 
 
 def canon_text(src: str, params=("self", "other")) -> list:
